@@ -303,6 +303,8 @@ def _dict_get(ex, st, self, args, kwargs, node):
         return args[1] if len(args) > 1 else VNone()
     val, has = ex.dict_get(self, args[0])
     dflt = args[1] if len(args) > 1 else VNone()
+    if isinstance(val, VRef):
+        val = VRef(val.cls, val.e, True)  # an absent key reads as 0 / None
     if not ex.in_spec:
         ex.assume_wf_read(st, val)
     if isinstance(val, VRef):
